@@ -234,6 +234,7 @@ type proc struct {
 	in  io.WriteCloser
 	out *bufio.Reader
 	rf  *os.File
+	tail *tailBuf
 }
 
 func newPool(cfg Config) *procPool { return &procPool{cfg: cfg, w: make([]*proc, cfg.Workers)} }
@@ -245,6 +246,10 @@ func (pp *procPool) start() (*proc, error) {
 		return nil, err
 	}
 	cmd.ExtraFiles = []*os.File{wf}
+	tail := &tailBuf{max: 24 << 10}
+	if cmd.Stderr == nil {
+		cmd.Stderr = tail // kept for crash reports (panics, race detector output)
+	}
 	in, err := cmd.StdinPipe()
 	if err != nil {
 		return nil, err
@@ -253,8 +258,27 @@ func (pp *procPool) start() (*proc, error) {
 		return nil, err
 	}
 	wf.Close()
-	return &proc{cmd: cmd, in: in, out: bufio.NewReaderSize(rf, 1<<20), rf: rf}, nil
+	return &proc{cmd: cmd, in: in, out: bufio.NewReaderSize(rf, 1<<20), rf: rf, tail: tail}, nil
 }
+
+// tailBuf keeps the last max bytes written to it.
+type tailBuf struct {
+	mu  sync.Mutex
+	b   []byte
+	max int
+}
+
+func (t *tailBuf) Write(p []byte) (int, error) {
+	t.mu.Lock()
+	t.b = append(t.b, p...)
+	if len(t.b) > t.max {
+		t.b = append([]byte(nil), t.b[len(t.b)-t.max:]...)
+	}
+	t.mu.Unlock()
+	return len(p), nil
+}
+
+func (t *tailBuf) String() string { t.mu.Lock(); defer t.mu.Unlock(); return string(t.b) }
 
 func (p *proc) kill() {
 	p.in.Close()
@@ -298,7 +322,7 @@ func (pp *procPool) run(w int, job Job) Result {
 		if r.err != nil {
 			p.kill()
 			pp.w[w] = nil
-			return Result{Crash: fmt.Sprintf("worker died: %v", r.err)}
+			return Result{Crash: fmt.Sprintf("worker died: %v\n%s", r.err, p.tail.String())}
 		}
 		var res Result
 		if err := json.Unmarshal(r.line, &res); err != nil {
